@@ -28,6 +28,8 @@ type c13query struct {
 	// the same way under every schedule)
 	noopts  bool
 	mayFail bool
+	// single: only run as a single-query harness (the parallelism is the query's own)
+	single bool
 }
 
 var c13Queries = []c13query{
@@ -52,6 +54,15 @@ var c13Queries = []c13query{
 	// queries built without any option: nothing but the selector cache and the registries may be shared
 	{name: "getvar-no-options", sql: "SELECT id, GETVAR('k') AS v FROM t", noopts: true},
 	{name: "setvar-no-options", sql: "SELECT SETVAR('k', a), id FROM t", noopts: true, mayFail: true},
+	// the query's own parallelism only: one copy of the query per inner array, each with ASYNC calls
+	// the parent has to await; ASYNC / SPINASYNC calls that read or write the variable store next to
+	// the evaluating goroutine's own SETVAR / GETVAR
+	{name: "async-nested-from", sql: "SELECT id, ASYNC.HMID(a) AS m FROM m", single: true},
+	{name: "async-nested-from-filtered", sql: "SELECT id, ASYNC.HFAST(a) AS f FROM m WHERE HMID(a) > 0", single: true},
+	{name: "vars-async-reader", sql: "SELECT id, SETVAR('k', id), SPINASYNC.HPEEK('k'), GETVAR('k') AS g FROM t", single: true},
+	{name: "vars-async-writer", sql: "SELECT id, GETVAR('k') AS g0, SPINASYNC.HPOKE('j', id), SETVAR('k', id), GETVAR('k') AS g FROM t", single: true},
+	{name: "async-in-subquery", sql: "SELECT id, (SELECT ASYNC.HMID(q) AS m FROM items) AS s FROM t", single: true},
+	{name: "async-in-cte-twice", sql: "WITH c AS (SELECT id, ASYNC.HFAST(a) AS f FROM t) SELECT id FROM c UNION ALL SELECT id FROM c", single: true},
 }
 
 type c13case struct {
@@ -79,6 +90,9 @@ func (p *c13) Init(tier string) {
 	}
 	for a := range c13Queries {
 		for b := a; b < len(c13Queries); b++ {
+			if c13Queries[a].single || c13Queries[b].single {
+				continue
+			}
 			for _, shared := range []bool{false, true} {
 				for _, warm := range []bool{false, true} {
 					if warm && a != b && tier == "quick" {
@@ -122,6 +136,10 @@ func c13Doc() map[string]any {
 		"u": []any{
 			map[string]any{"rid": 0.0, "b": 2.0, "g": "x"},
 			map[string]any{"rid": 1.0, "b": 3.0, "g": "y"},
+		},
+		"m": []any{
+			[]any{map[string]any{"id": 0.0, "a": 1.0}},
+			[]any{map[string]any{"id": 1.0, "a": 2.0}, map[string]any{"id": 2.0, "a": 3.0}},
 		},
 	}
 }
@@ -326,7 +344,7 @@ func (p *c13) RunCase(i int) *core.CaseResult {
 
 func (p *c13) Meta() core.Meta {
 	return core.Meta{
-		Rule: "one case per harness: 1 query alone (internal parallelism), or every unordered pair (thorough: also triples over a 7-query subset) of 18 queries (filter, projection, fresh path selector, group-by, joins incl. PARALLEL hash and nested, ASYNC, SPINASYNC, CTE, IN-subquery, EXISTS, ORDER BY+DISTINCT, SETVAR/GETVAR, UNION and JOIN USING with the same text in every thread, GETVAR / SETVAR built without any option) x {separate documents, one shared document} x {cold selector cache, warm cache}; each case = stateless exploration of every interleaving with <= 2 (thorough 3) preemptions at sync-operation granularity of the real engine under the -race build; oracle per schedule: no new race report, no deadlock / goroutine panic (scheduler), every thread's result equals its solo result. non-trivial = more than one schedule executed",
+		Rule: "one case per harness: 1 query alone (internal parallelism), or every unordered pair (thorough: also triples over a 7-query subset) of 18 queries, plus 6 single-only harnesses (ASYNC in a nested FROM with several inner arrays, ASYNC / SPINASYNC readers and writers of the variable store next to SETVAR / GETVAR, ASYNC inside a row-scoped subquery and inside a CTE read twice) (filter, projection, fresh path selector, group-by, joins incl. PARALLEL hash and nested, ASYNC, SPINASYNC, CTE, IN-subquery, EXISTS, ORDER BY+DISTINCT, SETVAR/GETVAR, UNION and JOIN USING with the same text in every thread, GETVAR / SETVAR built without any option) x {separate documents, one shared document} x {cold selector cache, warm cache}; each case = stateless exploration of every interleaving with <= 2 (thorough 3) preemptions at sync-operation granularity of the real engine under the -race build; oracle per schedule: no new race report, no deadlock / goroutine panic (scheduler), every thread's result equals its solo result. non-trivial = more than one schedule executed",
 		Assumptions: []string{
 			"scheduling points at every Mutex/RWMutex/WaitGroup operation, go statement, thread exit and harness yield; unsynchronised accesses are covered by the happens-before race monitor on each explored schedule (DRF-SC)",
 			"the race detector reports each distinct race (stack pair) once per worker process; a report is attributed to the first case of that worker that exhibits it",
